@@ -130,12 +130,19 @@ def run_case(case):
         vs.append(viol(pre + "|volume_positive", f"{int(np.sum(~(vol > 0)))} cell volumes are not positive (first: cell "
                        f"{i})", case, expected=float(xvol[i]) if np.isfinite(xvol[i]) else "unbounded cell",
                        observed=float(vol[i])))
+    # the listed finding F6 is exactly "unbounded cells are reported with volume 0.0": anything else reported for an
+    # unbounded cell (garbage, a negative number, some finite estimate) is a different violation and gets its own key
+    if is_open:
+        ob = vol[~np.isfinite(xvol)]
+        if np.any(ob != 0.0):
+            vs.append(viol(f"C06|{gname}|t={tname}|unbounded_cell_not_zero", "an unbounded cell is reported with a volume other "
+                           "than the documented 0.0", case, expected=0.0, observed=ob.tolist()[:6]))
     fin = np.isfinite(xvol)
     if fin.any():
         err = np.abs(vol - xvol)[fin] / xvol[fin]
         if err.max() > RTOL:
             i = int(np.nonzero(fin)[0][np.argmax(err)])
-            vs.append(viol(pre + "|volume", f"volume of cell {i} differs from the Euclidean Voronoi cell volume", case,
+            vs.append(viol((f"C06|{gname}|t={tname}" if is_open else pre) + "|volume", f"volume of cell {i} differs from the Euclidean Voronoi cell volume", case,
                            expected=float(xvol[i]), observed=float(vol[i])))
     if not np.array_equal(A, XA):
         i, j = np.argwhere(A != XA)[0].tolist()
